@@ -592,6 +592,16 @@ func TestVerifC06(t *testing.T) {
 				}
 				v2Revs[g] = fc
 			}
+			// the latest revision (7) was confirmed together with the formation: core folds it into
+			// the created element and buildContractState records that element as confirmed AND as
+			// the confirmed revision (fixes/C01-formation-carries-revision.patch) — the
+			// broadcastRevision selection must not contain the contract at any height
+			f := addV1(1, 50, 53, 7, true)
+			chainOp("v1-formed-with-folded-revision", func(tx index.UpdateTx) error {
+				return tx.ApplyContracts(idxAt(10), contracts.StateChanges{
+					Confirmed: []types.FileContractElement{{ID: v1List[f], FileContract: types.FileContract{RevisionNumber: 7}}},
+					Revised:   []contracts.RevisedContract{{ID: v1List[f], FileContract: types.FileContract{RevisionNumber: 7}}}})
+			})
 		case 2:
 			desc = "directed: resolved and proof-reverted contracts inside their windows"
 			a := addV1(1, 50, 53, 1, true)
